@@ -1372,6 +1372,36 @@ class Sym:
             return Nv(lean_ident(n), frozenset([n]))
         return self.nat_of(v, node)
 
+    # ---- ThrustModeValues: a mapping over the four thrust modes with elementwise arithmetic (`performance/types.py`); a
+    # missing mode reads as 0.0 (`__getitem__`). The reading of the operator methods is built in; it is validated like
+    # everything else by running the generated kernels next to the real functions.
+    @staticmethod
+    def is_tmv(v) -> bool:
+        return isinstance(v, Dv) and len(v.d) > 0 and all(k in THRUST_MODES for k in v.d)
+
+    def as_tmv(self, v: V) -> 'Dv':
+        if self.is_tmv(v):
+            return v
+        if isinstance(v, Ov):
+            return Dv({m: Ov(f'{v.path}[{m}]') for m in THRUST_MODES})
+        raise Untranslatable('not a ThrustModeValues')
+
+    def tmv_binop(self, op, a: V, b: V, ta='', tb='') -> V:
+        if not isinstance(op, (ast.Add, ast.Mult, ast.Div)):
+            raise Untranslatable(f'ThrustModeValues has no operator {type(op).__name__}')
+        if self.is_tmv(a) or (isinstance(a, Ov) and self.is_tmv(b)):
+            x = self.as_tmv(a)
+            if self.is_tmv(b) or isinstance(b, Ov):
+                y = self.as_tmv(b)
+                return Dv({m: self.named(f'tm_{m.split(".")[-1]}', self.sbin(op, x.d[m], y.d.get(m, R('(Lit.dec (0) 1 : α)')), ta, tb))
+                           for m in x.d})
+            return Dv({m: self.named(f'tm_{m.split(".")[-1]}', self.sbin(op, x.d[m], b, ta, tb)) for m in x.d})
+        # scalar on the left: __radd__ / __rmul__ (commutative forms only)
+        if isinstance(op, ast.Div):
+            raise Untranslatable('scalar / ThrustModeValues')
+        y = self.as_tmv(b)
+        return Dv({m: self.named(f'tm_{m.split(".")[-1]}', self.sbin(op, y.d[m], a, tb, ta)) for m in y.d})
+
     # ---- module context helpers
     def enter(self, mod: Module, cls: str | None, engine: str | None = None):
         self.mod, self.cls, self.engine = mod, cls, engine
@@ -1397,6 +1427,8 @@ class Sym:
                     return Nv(lean_ident(n), frozenset([n]))
                 if kind == 'bool':
                     return Bv(f'({lean_ident(n)} = true)', frozenset([n]))
+                if kind == 'tmv':
+                    return Dv({m: R(lean_ident(f'{n}_{m.split(".")[-1]}'), frozenset([f'{n}_{m.split(".")[-1]}'])) for m in THRUST_MODES})
                 return R(lean_ident(n), frozenset([n]))
         if isinstance(e, ast.Constant):
             if isinstance(e.value, (int, float)) and not isinstance(e.value, bool):
@@ -1469,11 +1501,13 @@ class Sym:
             if isinstance(e.op, ast.Pow) and isinstance(e.right, ast.Constant) and e.right.value in (2, 0.5) \
                     and not isinstance(e.right.value, bool):
                 return self.pointwise(lambda x: self.spow_const(x, e.right.value, tl), av)
-            if not isinstance(av, (Lv, Nv, Cond)):
+            if not isinstance(av, (Lv, Nv, Cond, Dv, Ov)):
                 self.real(av, tl)                      # (a left operand that is not a number fails before the right one is read)
             bv = self._ev(e.right, env)
             if isinstance(av, Nv) or isinstance(bv, Nv):
                 return self.nat_binop(e, av, bv)
+            if self.is_tmv(av) or self.is_tmv(bv):
+                return self.tmv_binop(e.op, av, bv, tl, tr)
             return self.pointwise(lambda x, y: self.sbin(e.op, x, y, tl, tr), av, bv)
         if isinstance(e, ast.BoolOp):
             return self.boolop('∧' if isinstance(e.op, ast.And) else '∨', e.values, env)
@@ -1489,6 +1523,17 @@ class Sym:
             return Tv([self.ev(x, env) for x in e.elts])
         if isinstance(e, ast.Dict):
             return Dv({self.key_of(self._ev(k, env)): self.ev(v, env) for k, v in zip(e.keys, e.values)})
+        if isinstance(e, ast.DictComp) and len(e.generators) == 1 and not e.generators[0].ifs \
+                and isinstance(e.generators[0].target, ast.Name):
+            gen = e.generators[0]
+            if isinstance(gen.iter, ast.Name) and gen.iter.id == 'ThrustMode' and 'ThrustMode' not in env:
+                out = {}
+                for m in THRUST_MODES:
+                    env2 = dict(env)
+                    env2[gen.target.id] = Cv(m)
+                    out[self.key_of(self._ev(e.key, env2))] = self.ev(e.value, env2)
+                return Dv(out)
+            raise Untranslatable('dictionary comprehension over something that is not the ThrustMode enumeration')
         if isinstance(e, ast.Call):
             return self.call(e, env)
         raise Untranslatable(f'expression {type(e).__name__}')
@@ -1737,7 +1782,16 @@ class Sym:
             a, b = [self.real(self._ev(x, env), ast.unparse(x)) for x in args]
             return R(f'({"smax" if f.id == "max" else "smin"} {a.e} {b.e})', a.deps | b.deps)
         if isinstance(f, ast.Attribute) and f.attr == 'copy' and not args:
-            return self._ev(f.value, env)
+            base = self._ev(f.value, env)
+            return Dv(dict(base.d)) if isinstance(base, Dv) else base
+        if isinstance(f, ast.Attribute) and f.attr == 'sum' and not args and not e.keywords:
+            base = self.ev(f.value, env)
+            if self.is_tmv(base):
+                rs = [self.real(base.d[m], f'{ast.unparse(f.value)}[{m}]') for m in base.d]
+                acc = rs[0]
+                for r in rs[1:]:
+                    acc = R(f'({acc.e} + {r.e})', acc.deps | r.deps)
+                return acc
         if isinstance(f, ast.Attribute) and f.attr == 'item' and not args:
             return self._ev(f.value, env)
         if isinstance(f, ast.Attribute) and f.attr in ('items', 'keys', 'values') and not args:
@@ -1783,6 +1837,14 @@ class Sym:
         """SpeciesValues({...}) / ThrustModeValues(a, b, c, d) / any record constructor with keywords."""
         if cname.startswith('ThrustModeValues') and len(e.args) == 4 and not e.keywords:
             return Dv({k: self.ev(a, env) for k, a in zip(THRUST_MODES, e.args)})
+        if cname.startswith('ThrustModeValues') and len(e.args) == 1:
+            v = self.ev(e.args[0], env)
+            if isinstance(v, Dv):
+                return Dv(dict(v.d))
+            if isinstance(v, (R, Cv)):
+                r = self.real(v, 'ThrustModeValues(x)')
+                return Dv({m: r for m in THRUST_MODES})
+            raise Untranslatable('ThrustModeValues(<array>)')
         if len(e.args) == 1 and not e.keywords:
             v = self.ev(e.args[0], env)
             if isinstance(v, Dv):
@@ -2134,7 +2196,7 @@ class Sym:
 
     def for_stmt(self, st: ast.For, env: dict):
         if self.spec.loop and not self.in_loop and self.depth == 0 and (
-                (self.spec.loop_over and ast.unparse(st.iter) == self.spec.loop_over) or
+                (self.spec.loop_over and ast.unparse(st.iter) in self.spec.loop_over.split('|')) or
                 (not self.spec.loop_over and isinstance(st.iter, ast.Call) and isinstance(st.iter.func, ast.Name)
                  and st.iter.func.id == 'range')):
             self.generic_iteration(st, env)
@@ -2205,7 +2267,16 @@ class Sym:
         self.enter(mod, cls, spec.engine)
         self.params = [a.arg for a in fn.args.args]
         env: dict = {}
-        inputs = [(i, 'real') if isinstance(i, str) else tuple(i) for i in spec.inputs]
+        inputs = []
+        for i in spec.inputs:
+            n, kind = (i, 'real') if isinstance(i, str) else tuple(i)
+            if kind == 'tmv':
+                inputs += [(f'{n}_{m.split(".")[-1]}', 'real') for m in THRUST_MODES]
+            else:
+                inputs.append((n, kind))
+        for text, (n, kind) in spec.cut_expr.items():
+            if kind == 'tmv' and '[' in text:          # a per-key pseudo variable that loops store into: known from the start
+                env[text] = Dv({m: R(lean_ident(f'{n}_{m.split(".")[-1]}'), frozenset([f'{n}_{m.split(".")[-1]}'])) for m in THRUST_MODES})
         for a in fn.args.args:
             p = a.arg
             if p == 'self':
@@ -2372,6 +2443,19 @@ for _t in ('self.starting_mass', 'self.total_fuel_mass'):
     SYM_KERNELS.append(SymKernel('iter_correct_' + _t.split('.')[-1], _BASE, 'Builder._iterate_mass', ['mass_res'], _t,
                                  loop=True, loop_over='while', cut=('mass_res',),
                                  cond_consts={'abs(mass_res) < self.options.mass_iter_reltol': False}))
+# the LTO part of the inventory (C01): time-in-mode fuel, the approach / climb zeroing of the trajectory accounting mode, amounts =
+# index × fuel per thrust mode (ThrustModeValues arithmetic read elementwise), for one generic species
+_LTO = dict(loop=True, loop_seq=True, loop_over='lto_indices|lto_indices.keys()', cut_obj=('lto_data',),
+            cond_inputs={'config.emissions.climb_descent_mode != ClimbDescentMode.LTO': 'traj_mode'},
+            cut_expr={'lto_indices[species]': ('ei', 'tmv')})
+for _m in ('IDLE', 'APPROACH', 'CLIMB', 'TAKEOFF'):
+    SYM_KERNELS.append(SymKernel(f'lto_emission_{_m}', 'emissions/lto.py', 'get_LTO_emissions', [('ei', 'tmv')],
+                                 f'lto_emissions[species]/ThrustMode.{_m}', **_LTO))
+    SYM_KERNELS.append(SymKernel(f'lto_index_{_m}', 'emissions/lto.py', 'get_LTO_emissions', [('ei', 'tmv')],
+                                 f'lto_indices[species]/ThrustMode.{_m}', **_LTO))
+    SYM_KERNELS.append(SymKernel(f'lto_fuel_{_m}', 'emissions/lto.py', 'get_LTO_emissions', [('ei', 'tmv')],
+                                 f'lto_fuel_burn/ThrustMode.{_m}', **_LTO))
+SYM_KERNELS.append(SymKernel('lto_fuel_burn', 'emissions/lto.py', 'get_LTO_emissions', [('ei', 'tmv')], 'return/fuel_burn', **_LTO))
 SYM_KERNELS.append(SymKernel('weather_ground_speed', 'weather.py', 'Weather.get_ground_speed',
                              ['true_airspeed', 'heading_rad', 'wind_u', 'wind_v'], 'return',
                              cut=('heading_rad', 'wind_u', 'wind_v')))
